@@ -36,11 +36,10 @@ func (pc *posChecker) lex(s *ast.Source) *lexedSrc {
 	if l, ok := pc.lexed[s]; ok {
 		return l
 	}
-	l := &lexedSrc{res: reflex.Lex(s.Input, reflex.Defects{}), startAt: map[int]int{}, lineCol: map[[2]int]bool{}, stringAt: map[[2]int]bool{}, sm: newSrcMap(s.Input)}
 	im := lexImpl(s.Input)
-	if _, _, extentOnly := extentOnlyDiff(im, l.res); extentOnly {
-		// same tokens at other offsets: positions are judged against the grammar's tokens
-	} else if cf, _ := lexDiff(im, l.res); cf != "" {
+	ref, sameTokens := positionReference(s.Input, im)
+	l := &lexedSrc{res: ref, startAt: map[int]int{}, lineCol: map[[2]int]bool{}, stringAt: map[[2]int]bool{}, sm: newSrcMap(s.Input)}
+	if !sameTokens {
 		// the lexer and the grammar disagree on this source's tokens (C03's business):
 		// positions cannot be judged against the grammar's tokens
 		l.res.Undecided = true
